@@ -40,7 +40,7 @@ ASSUMPTIONS = [
 ]
 
 
-EXPECTED_PROBES = ['subset_file_without_first_class', 'infinite_feature_values', 'integer_percentage', 'negative_identifiers', 'file_of_several_hundred_kib', 'binary_file_replaced_at_same_path', 'split_input_not_plain_float64_c_order', 'caller_overwrote_split_outputs', 'all_three_formats_compared', 'empty_first_set', 'empty_second_set', 'float_and_exact_floor_differ', 'gap_labels_rejected', 'ids_beyond_float32_exact_range', 'ids_differ_from_row_numbers', 'pct_times_n_is_an_integer', 'single_sample_file_loaded', 'split_reissued_after_prng_perturbation', 'three_or_more_classes']
+EXPECTED_PROBES = ['explicit_output_name_with_other_extension', 'subset_file_without_first_class', 'infinite_feature_values', 'integer_percentage', 'negative_identifiers', 'file_of_several_hundred_kib', 'binary_file_replaced_at_same_path', 'split_input_not_plain_float64_c_order', 'caller_overwrote_split_outputs', 'all_three_formats_compared', 'empty_first_set', 'empty_second_set', 'float_and_exact_floor_differ', 'gap_labels_rejected', 'ids_beyond_float32_exact_range', 'ids_differ_from_row_numbers', 'pct_times_n_is_an_integer', 'single_sample_file_loaded', 'split_reissued_after_prng_perturbation', 'three_or_more_classes']
 
 SLOW_ARMS = ("big",)
 
@@ -117,8 +117,12 @@ def gen_case(rng, arm, tier, k=0):
             ops.append(["load", rng.choice(("txt", "csv", "json"))])
         elif arm == "mixed" and r < 0.42:
             ops.append(["subgraph", rng.choice(("txt", "csv", "json"))])
-        elif arm == "mixed" and r < 0.45:
+        elif arm == "mixed" and r < 0.44:
             ops.append(["parse_gap", rng.randint(1, 3)])
+        elif arm == "mixed" and r < 0.47:
+            # fault: a binary file cut short in its last record - converting it must fail, and must
+            # not affect any later conversion
+            ops.append(["conv_truncated", rng.choice(("txt", "csv", "json")), rng.randint(1, 9)])
         elif r < 0.65:
             if splits and rng.random() < 0.45:
                 ops.append(list(rng.choice(splits)))  # re-issue an earlier call
@@ -287,13 +291,36 @@ def run_case(case):
                 have_opf = True
                 out.steps += 1
                 norm.append(("write_opf", len(op) > 1))
+            elif kop == "conv_truncated":
+                if not have_opf:
+                    continue
+                out.steps += 1
+                fmt = op[1]
+                fn = {"txt": B.converter.opf2txt, "csv": B.converter.opf2csv, "json": B.converter.opf2json}[fmt]
+                with open(opf_path, "rb") as f_:
+                    blob = f_.read()
+                cut_path = os.path.join(scratch, "cut.opf")
+                with open(cut_path, "wb") as f_:
+                    f_.write(blob[: max(13, len(blob) - op[2])])
+                try:
+                    fn(cut_path, os.path.join(scratch, "cut_out." + fmt))
+                    bump(out.probes, "truncated_file_converted_without_error")
+                except Exception:  # noqa: BLE001 - the expected outcome of the fault
+                    bump(out.faults, "conversion_of_truncated_file_failed")
+                log.add("conv_truncated", fmt)
+                norm.append(("conv_truncated", fmt))
             elif kop == "conv":
                 if not have_opf:
                     continue
                 out.steps += 1
                 fmt, explicit = op[1], op[2]
                 fn = {"txt": B.converter.opf2txt, "csv": B.converter.opf2csv, "json": B.converter.opf2json}[fmt]
-                if explicit:
+                if explicit and (k * 7 + len(fmt)) % 3 == 0:
+                    # an explicit output name whose extension says nothing about the format
+                    path = os.path.join(scratch, "explicit_%s_%s" % (fmt, ("out.data", "out", "export.csv" if fmt == "txt" else "export.txt")[k % 3]))
+                    lib_call("opf2" + fmt, fn, opf_path, path)
+                    bump(out.probes, "explicit_output_name_with_other_extension")
+                elif explicit:
                     path = os.path.join(scratch, "explicit_%s.%s" % (fmt, fmt))
                     lib_call("opf2" + fmt, fn, opf_path, path)
                 else:
@@ -308,6 +335,8 @@ def run_case(case):
                 fmt = op[1]
                 if fmt not in conv:
                     continue
+                if kop == "subgraph" and not conv[fmt].endswith("." + fmt):
+                    continue  # Subgraph(from_file) picks the loader by extension: only for matching names
                 out.steps += 1
                 if kop == "load":
                     loader = {"txt": B.loader.load_txt, "csv": B.loader.load_csv, "json": B.loader.load_json}[fmt]
